@@ -1682,6 +1682,16 @@ func (p *parser) hoistSymbols(scope *js_ast.Scope) {
 				if existingMember, ok := s.Members[symbol.OriginalName]; ok {
 					existingSymbol := &p.symbols[existingMember.Ref.InnerIndex]
 
+					// A sloppy-mode block-level function declaration is not hoisted if
+					// its name is also the name of a parameter of the enclosing function
+					// (see "Changes to FunctionDeclarationInstantiation" in Annex B)
+					if isSloppyModeBlockLevelFnStmt && s.Kind == js_ast.ScopeFunctionBody && s.Parent.Kind == js_ast.ScopeFunctionArgs {
+						if _, ok := s.Parent.Members[symbol.OriginalName]; ok {
+							delete(p.hoistedRefForSloppyModeBlockFn, originalMemberRef)
+							continue nextMember
+						}
+					}
+
 					// We can hoist the symbol from the child scope into the symbol in
 					// this scope if:
 					//
